@@ -315,7 +315,7 @@ fn record(sh: &Shared, s: &dyn Scenario, seed: u64, devs: &[Deviation], out: &Ou
             });
         }
         drop(st);
-        if !is_known {
+        if !is_known && std::env::var_os("VERIF_KEEP_GOING").is_none() {
             sh.stop.store(true, Ordering::Relaxed);
         }
     }
